@@ -8,7 +8,13 @@ Correspondence (model = lean/IrVerif/Model/Path.lean, driver commands path.*):
     trees contain canaries outside the base, symlinks in/out, symlinked directories, hard links, a prefix sibling,
     a FIFO and a device node inside the base;
   * sequences on one tensor (calls of all entry points, changes of the tree, base_dir re-assignments incl. "" , release())
-    vs the model's sessions;
+    vs the model's sessions; histories over the tensors of one model through every public re-basing operation (setter with str /
+    pathlib / bytes values, external_data.set_base_dir on the main graph and on a function body, load_to_model,
+    convert_tensors_from_external, Model.clone) vs the model's world (path.world);
+  * zero-size tensors, NUL characters, PATH_MAX / NAME_MAX, symlink chains nested deeper than the kernel's bound (path.readsT);
+  * a static AST scan of the imported onnx_ir tree: every file-access call site and every user of path / location / base_dir is
+    in an explicit table (modelled entry point, or not location-derived with a reason); the audit hook attributes every open to
+    the onnx_ir function that made it;
   * ir.load with every model-path spelling (incl. "<symlinked dir>/.."), chdir between load and read, models whose
     external tensors sit in initializers / TENSOR / TENSORS attributes of the main graph, of nested graphs (depth 1-3) and
     of model-local functions; the walker behind set_base_dir vs the model's walker.
@@ -49,26 +55,42 @@ THEOREMS = [
     "IrVerif.Path.C10_call_open_safe",
     "IrVerif.Path.C10_call_result",
     "IrVerif.Path.C10_session_safe",
+    "IrVerif.Path.C10_nul_rejected",
+    "IrVerif.Path.C10_eloop_no_open",
+    "IrVerif.Path.C10_fuel_discharged",
+    "IrVerif.Path.C10_zero_size",
+    "IrVerif.Path.C10_world_safe",
 ]
 ASSUMPTIONS = [
     "POSIX only: os.path.normcase is the identity; Windows/ntpath behaviour is not modelled",
     "no concurrent modification of the tree between the check and the open of one call (TOCTOU is outside the model); changes "
-    "BETWEEN calls are modelled (sessions)",
-    "path strings contain no NUL character (NUL locations are exercised by the oracle only)",
+    "BETWEEN calls are modelled (sessions, world histories)",
     "CPython 3.12 posixpath semantics (join, normpath, abspath, split/dirname, realpath/_joinrealpath with its seen cache) "
     "as transcribed; the kernel's path resolution (path_resolution(7): lookup in directories, '..' at the root, symlink "
     "following, trailing separators, ENOTDIR/ENOENT, ELOOP modelled as a bound on the NESTING of symlink expansions rather than "
-    "Linux's total of 40) is a hand-written model validated against os.lstat/os.stat/os.path.realpath on fixed and random trees",
-    "os.getcwd() names a chain of real directories (true on POSIX); theorems about reads assume the Python recursion "
-    "bound is at least the kernel's symlink bound",
+    "Linux's total of 40 per resolution: the generated chains stay clear of the band where the two differ) is a hand-written model "
+    "validated against os.lstat/os.stat/os.path.realpath on fixed and random trees; PATH_MAX is modelled at the open of the tensor's "
+    "path only (ASCII byte counts), NAME_MAX as 'no such entry'",
+    "os.getcwd() names a chain of real directories (true on POSIX); theorems about safe opens assume the recursion bound of "
+    "os.path.realpath is at least the kernel's symlink bound; C10_fuel_discharged shows that every such bound gives the outcome of "
+    "the kernel's bound itself (hypothesis, evaluated per generated case and published as fuel_hypothesis=*: the location is "
+    "relative, or the kernel resolves the base directory)",
+    "a NUL character in the base directory or the location makes os.lstat raise ValueError inside check 2 (modelled: check2 = false; "
+    "theorem C10_nul_rejected); a bytes base_dir with a str location makes os.path.join raise TypeError before any check or open "
+    "(modelled in callT); a bytes LOCATION is outside the model (type-incorrect)",
     "an ABSOLUTE location that lies inside the base directory is accepted (join(base, abs) = abs, check 1 passes): the "
     "property's 'absolute paths raise' is read as 'absolute paths leading outside the base raise'",
     "an empty base directory disables the checks by design (programmatic construction); the theorems and the oracle are about "
-    "calls made while the tensor has a non-empty base directory; re-assigning base_dir drops the mapping (D184) so that bytes "
-    "always come from an open checked against the tensor's current base directory",
+    "calls made while the tensor has a non-empty base directory; re-assigning base_dir to a different VALUE (type included: "
+    "Path('/a') != '/a') drops the mapping (D184) so that bytes always come from an open checked against the tensor's current base directory",
     "a tensor that is already mapped is served from its mapping (no new open, no new check) while its base directory is unchanged, "
     "even if the tree changes afterwards: it keeps returning the bytes of the inode it mapped through a checked open",
-    "zero-size tensors (nothing is mapped or copied) are exercised by the oracle only; the models of the entry points are for size > 0",
+    "zero-size tensors: numpy/__array__/serialisation run the check and open nothing, tobytes touches nothing, tofile checks, opens and "
+    "copies `length` bytes (modelled: bodyZ; theorem C10_zero_size)",
+    "Model.clone()/Graph.clone() share the ExternalTensor objects (checked on every clone made); a clone is an alias in the world model",
+    "entry-point completeness is a static AST scan of the imported onnx_ir tree against the tables FILE_SITES / PATH_USERS below: a file "
+    "access through a call that the scan's sink list does not name (an unusual library function, exec/eval, a C extension) is not seen "
+    "statically; the audit hook (every open event is attributed to the onnx_ir function that made it) covers those dynamically",
     "st_nlink counts the names of an inode (LinkCountSound; checked on every described tree); file permissions, mount points and "
     "bind mounts are not modelled; FIFOs, sockets and device nodes are modelled as one kind of non-regular object",
 ]
@@ -128,6 +150,14 @@ def build_tree() -> dict:
         os.symlink(target, os.path.join(R, rel))
     os.link(os.path.join(R, "outside/hcanary"), os.path.join(R, "base/hard"))
     os.link(os.path.join(R, "base/g"), os.path.join(R, "base/d/hard_in"))
+    # chains of nested symbolic links: `mid` (30 links) and `deep_13` (33 links): inside the kernel's bound of 40 also together
+    # with the at most 7 other links a generated base + location can traverse (Linux counts ALL links of one resolution, the
+    # model bounds their nesting: see ASSUMPTIONS); `deep` (46 links to an inside file) and `deep_3` (43): os.path.realpath
+    # resolves them, the kernel says ELOOP; `deepout` (46 links to a canary outside)
+    for head, k, final in (("mid", 30, "f"), ("deep", 46, "f"), ("deepout", 46, "../outside/canary")):
+        names = [head] + [f"{head}_{i}" for i in range(1, k)]
+        for i, n in enumerate(names):
+            os.symlink(names[i + 1] if i + 1 < k else final, os.path.join(R, "base", n))
     # non-regular objects inside the base: a FIFO (kept open read-write by the harness so that an open() of it can
     # never block) holding 8 bytes, and, when permitted, a character device (a /dev/zero clone)
     special_fds = []
@@ -251,7 +281,23 @@ def random_tree_path(rng, R: str) -> str:
 
 # --------------------------------------------------------------------------- real reads
 
-_AUDIT = {"on": False, "events": [], "installed": False}
+_AUDIT = {"on": False, "events": [], "sites": [], "installed": False, "pkg": None}
+
+
+def _opening_site():
+    """(file relative to the onnx_ir package, qualified function) of the innermost onnx_ir frame below an open()."""
+    pkg = _AUDIT["pkg"]
+    if pkg is None:
+        import onnx_ir
+
+        pkg = _AUDIT["pkg"] = os.path.dirname(os.path.abspath(onnx_ir.__file__)) + os.sep
+    f = sys._getframe(2)
+    while f is not None:
+        fn = f.f_code.co_filename
+        if fn.startswith(pkg):
+            return (fn[len(pkg):], f.f_code.co_qualname)
+        f = f.f_back
+    return None
 
 
 def _hook(event, args):
@@ -262,6 +308,7 @@ def _hook(event, args):
                 p = os.fsdecode(p)
             if isinstance(p, str):
                 _AUDIT["events"].append(p)
+                _AUDIT["sites"].append(_opening_site())
         except Exception:
             pass
 
@@ -281,6 +328,12 @@ def _classify(e: BaseException) -> str:
             return "c2"
         if "multiple hard links" in m or "is not a regular file" in m:
             return "c3"
+        if "embedded null byte" in m:
+            return "c2"  # os.lstat inside check 2's os.path.realpath refuses the string (model: check2 = false)
+    if isinstance(e, TypeError) and "mix str" in m.replace("strings", "str"):
+        return "type"  # os.path.join(bytes base_dir, str location): raised before any check or open
+    if isinstance(e, TypeError) and "endswith first arg must be bytes" in m:
+        return "type"
     if isinstance(e, OSError):
         return "open"
     return "other"
@@ -323,6 +376,7 @@ def real_read(t, ep: str, scratch: str, R: str, release: bool = True) -> dict:
     """Run one read under the audit hook; canonical observation."""
     _ensure_hook()
     _AUDIT["events"] = []
+    _AUDIT["sites"] = []
     _AUDIT["on"] = True
     try:
         try:
@@ -344,12 +398,16 @@ def real_read(t, ep: str, scratch: str, R: str, release: bool = True) -> dict:
     obs["own_opens"] = sum(1 for p in _AUDIT["events"] if p == own)
     cwd = os.getcwd()
     opened = []
-    for p in _AUDIT["events"]:
+    sites = set()
+    for p, site in zip(_AUDIT["events"], _AUDIT["sites"]):
         ap = p if os.path.isabs(p) else os.path.join(cwd, p)
         if ap.startswith(scratch):
             continue
         opened.append(ap)
+        if site is not None:
+            sites.add(site)
     obs["opened"] = opened
+    obs["open_sites"] = sorted(list(x) for x in sites)  # which onnx_ir functions opened files during this call
     return obs
 
 
@@ -407,7 +465,7 @@ def oracle(part, tree: dict, desc: dict, case: dict, obs: dict, true_base: str |
 TOKENS = [".", "..", "d", "f", "link_in", "link_out", ""]
 EXTRA_TOKENS = ["fifo", "zero", "dlink_out", "dlink_in", "hard", "up", "chain", "loop_a", "dangling", "link_abs_out", "link_abs_in",
                 "hard_in", "link_sib", "g", "e", "nothing", "basex", "outside", "base", "canary", "back", "link_in2",
-                "chain_in", "dangling_out", "blink"]
+                "chain_in", "dangling_out", "blink", "mid", "deep", "deepout", "deep_13", "deep_3"]
 
 
 def base_spellings(R: str) -> list[dict]:
@@ -507,10 +565,33 @@ def _work(job: dict) -> dict:
         oracle(part, tree, desc, case, obs, sp["true"])
         obs_list.append((case, obs))
         queries.append([sp["base"], loc, off or 0, NBYTES if ln is None else ln, ep])
-    outs = lean_batch([{"m": "path.reads", "fs": fs_json(desc), "cwd": sp["cwd"], "kfuel": KFUEL, "fuel": PFUEL, "queries": queries}])[0]
-    if "r" not in outs:
+    both = lean_batch([{"m": "path.reads", "fs": fs_json(desc), "cwd": sp["cwd"], "kfuel": KFUEL, "fuel": PFUEL, "queries": queries},
+                       {"m": "path.reads", "fs": fs_json(desc), "cwd": sp["cwd"], "kfuel": KFUEL, "fuel": KFUEL, "queries": queries}])
+    outs, outs_k = both
+    if "r" not in outs or "r" not in outs_k:
         part.disagree("model error", {"sp": sp}, outs, None)
         return part
+    # C10_fuel_discharged on the generated cases: hypothesis = (relative location, or the kernel resolves the base);
+    # conclusion = the model's outcome with fuel = kfuel equals its outcome with the large recursion bound (and hence the
+    # real code's, which is compared below).  C10_eloop_no_open: hypothesis = the kernel does not resolve the path.
+    for (case, obs), o1, o0 in zip(obs_list, outs["r"], outs_k["r"]):
+        hyp = (not case["loc"].startswith("/")) or sp["true"] is not None
+        part.count("fuel_hypothesis=" + ("holds" if hyp else "fails"))
+        if hyp and (o1["r"], o1.get("bytes"), o1["opened"] if o1["opened"] != "fail" else None) != (o0["r"], o0.get("bytes"), o0["opened"] if o0["opened"] != "fail" else None):
+            part.disagree("model outcome depends on the recursion bound although fuel >= kfuel (C10_fuel_discharged)", case, o1, o0)
+        if o1["v"] != o0["v"]:
+            part.count("fuel_verdict_differs_outcome_same")
+        try:
+            os.stat(os.path.join(case["cwd"], case["base"], case["loc"]))
+            part.count("eloop_hypothesis=path-resolves")
+        except OSError as e_:
+            import errno as _errno
+
+            part.count("eloop_hypothesis=" + ("ELOOP" if e_.errno == _errno.ELOOP else "ENAMETOOLONG" if e_.errno == _errno.ENAMETOOLONG else "other-errno"))
+            if obs["r"] == "ok":
+                part.fail(f"unresolvable-path-read:{case['ep']}", "a read returned bytes although the kernel does not resolve the tensor's path", {**case, "obs": obs})
+        except ValueError:
+            part.count("eloop_hypothesis=nul")
     for (case, obs), out in zip(obs_list, outs["r"]):
         layer = obs.get("layer", "ok" if obs["r"] == "ok" else "?")
         part.case([case["cwd"].replace(R, "$R"), case["base"].replace(R, "$R"), case["loc"].replace(R, "$R"), case["ep"], case["offset"], case["length"]],
@@ -523,6 +604,9 @@ def _work(job: dict) -> dict:
 def compare(part, case: dict, obs: dict, out: dict, id_of: dict, R: str) -> None:
     """Model verdict vs the real read: accept/reject, bytes, which layer rejects, whether the tensor's path was
     opened by this call and which inode that reached."""
+    for site in obs.get("open_sites", ()):
+        if tuple(site) not in ENTRY_OPEN_SITES:
+            part.disagree("a file was opened during a read by an onnx_ir function that is not a modelled open site (FILE_SITES entry:*)", case, sorted(ENTRY_OPEN_SITES), site)
     if "own_opens" in obs:
         m_open = out.get("opened")
         if (m_open is None) != (obs["own_opens"] == 0):
@@ -548,6 +632,11 @@ def compare(part, case: dict, obs: dict, out: dict, id_of: dict, R: str) -> None
         return
     layer = obs.get("layer")
     mlayer = {"c1": "c1", "c2": "c2", "c3": "c3"}.get(out["v"], "open")
+    if layer == "type" or out.get("nev") == 0:
+        # TypeError from os.path.join(bytes, str): the model performs no event at all
+        if not (layer == "type" and out.get("nev", 0) == 0):
+            part.disagree("raised without any event (TypeError on a bytes base_dir) differs", case, out, obs)
+        return
     if layer in ("c1", "c2", "c3", "open"):
         if mlayer != layer:
             part.disagree("rejecting layer differs", case, out, obs)
@@ -941,6 +1030,225 @@ def nested_load_cases(ctx: Ctx, tree: dict, desc: dict) -> None:
         os.remove(mpath)
 
 
+# --------------------------------------------------------------------------- static scan: entry-point completeness
+#
+# C10_all_entry_points is a theorem about the statement lists `body ep` of the model.  What ties "these are ALL the places
+# where onnx_ir opens a file whose path derives from an external tensor's location / base_dir" to /repo is this scan: every
+# call site in the imported onnx_ir tree (tests excluded) that opens, maps, copies, stats or resolves a file, and every
+# function that reads ExternalTensor.path / location / base_dir, must be listed below.  An unlisted site (e.g. a new fast
+# path) is a broken correspondence; so is a listed ENTRY site that disappeared or whose containment check no longer
+# precedes the open in statement order.
+
+_SINK_CALLS = {
+    "open", "io.open", "os.open", "os.fdopen", "io.FileIO", "mmap.mmap", "np.memmap", "numpy.memmap", "np.fromfile", "numpy.fromfile",
+    "np.load", "numpy.load", "np.loadtxt", "numpy.loadtxt", "np.genfromtxt", "numpy.genfromtxt", "os.sendfile", "os.copy_file_range",
+    "os.readlink", "os.stat", "os.lstat", "os.path.realpath", "os.path.samefile", "os.path.exists", "os.path.lexists", "os.path.isfile",
+    "os.path.isdir", "os.path.islink", "os.path.getsize", "os.scandir", "os.listdir", "os.walk", "onnx.load", "onnx.load_model",
+    "onnx.load_tensor", "onnx.load_external_data_for_model", "onnx.save", "onnx.save_model", "pickle.load", "torch.load",
+    "os.replace", "os.rename", "os.remove", "os.unlink", "os.link", "os.symlink", "os.truncate", "tempfile.mkdtemp", "tempfile.mkstemp",
+    "tempfile.NamedTemporaryFile", "tempfile.TemporaryDirectory", "tempfile.TemporaryFile", "subprocess.run", "subprocess.Popen",
+    "os.system", "pathlib.Path", "Path",
+}
+_SINK_PREFIX = ("shutil.", "onnx.external_data_helper.", "safetensors.")
+_SINK_METHODS = {"read_bytes", "read_text", "write_bytes", "write_text", "open", "tofile", "fromfile", "memmap", "safe_open", "load_file",
+                 "serialize_file", "copy_file_range", "sendfile", "readinto", "load_external_data_for_model"}
+_SINK_STRINGS = {"copy_file_range", "sendfile", "memmap", "fromfile", "open", "mmap"}  # getattr(os, "<name>", ...)
+_PATH_ATTRS = {"path", "location", "base_dir", "_location", "_base_dir"}
+_TENSOR_CALLS = {"_load", "_check_path_containment", "set_base_dir", "convert_tensors_from_external", "_external_tensor_to_memory_tensor",
+                 "load_to_model"}
+
+# (file, qualified function, sink) -> (number of such call sites, class, what it is / why it is not location-derived)
+#   entry:<prim>   the open of join(base_dir, location) of a modelled entry point (Prim of Model/Path.lean `body`)
+#   check          the containment check's own realpath / stat (check2 / check3 of the model)
+#   delegate       calls x.tofile(): for an ExternalTensor that IS the modelled entry point `tofile`
+#   not-derived    the path does not come from an external tensor's location / base_dir
+FILE_SITES = {
+    ("_core.py", "ExternalTensor._load", "open"): (1, "entry:openMap", "with open(self.path, 'rb') as f  (loadBody = [check, openMap, frombuffer])"),
+    ("_core.py", "ExternalTensor._load", "mmap.mmap"): (1, "entry:openMap", "maps the descriptor opened by the line above (no path of its own)"),
+    ("_core.py", "ExternalTensor.tofile", "open"): (1, "entry:openCopy", "with open(self.path, 'rb') as src  (body tofile = [check, openCopy])"),
+    ("_core.py", "ExternalTensor.tofile", "getattr:copy_file_range"): (1, "entry:openCopy", "kernel copy FROM the descriptor opened by the line above"),
+    ("_core.py", "ExternalTensor._check_path_containment", "os.path.realpath"): (2, "check", "check 2: realpath(base_dir), realpath(path)"),
+    ("_core.py", "ExternalTensor._check_path_containment", "os.stat"): (1, "check", "check 3: stat(path_real) for st_nlink / S_ISREG; metadata only"),
+    ("_core.py", "Tensor.tofile", ".tofile"): (1, "not-derived", "numpy ndarray.tofile(file): WRITES an in-memory array to the caller's file object"),
+    ("_core.py", "PackedTensor.tofile", ".tofile"): (1, "not-derived", "numpy ndarray.tofile(file): WRITES an in-memory array to the caller's file object"),
+    ("_core.py", "LazyTensor.tofile", ".tofile"): (2, "delegate", "forwards to the evaluated tensor's tofile / TensorBase.tofile(tobytes())"),
+    ("tensor_adapters.py", "TorchTensor.tofile", ".tofile"): (1, "not-derived", "TensorBase.tofile of an in-memory torch tensor"),
+    ("external_data.py", "_write_tensor_at", ".tofile"): (1, "delegate", "writer: tensor.tofile(data_file); for an ExternalTensor this is the entry point tofile"),
+    ("_io.py", "load", "onnx.load"): (1, "not-derived", "the model file itself (path given by the caller); load_external_data=False is REQUIRED (checked below)"),
+    ("_io.py", "save", "onnx.save"): (2, "not-derived", "writes the model proto to the caller's path"),
+    ("external_data.py", "_paths_refer_to_same_file", "os.path.samefile"): (1, "not-derived", "stat comparison of tensor.path with the write destination: metadata only, nothing is read"),
+    ("external_data.py", "_check_no_existing_shard_files", "os.path.exists"): (1, "not-derived", "write destinations (caller's base_dir / relative_path)"),
+    ("external_data.py", "_write_external_data", "os.path.islink"): (1, "not-derived", "write destination"),
+    ("external_data.py", "_write_external_data", "os.path.realpath"): (1, "not-derived", "write destination"),
+    ("external_data.py", "_write_external_data", "tempfile.mkdtemp"): (1, "not-derived", "staging directory next to the write destination"),
+    ("external_data.py", "_write_external_data", "os.path.exists"): (1, "not-derived", "write destination"),
+    ("external_data.py", "_write_external_data", "shutil.copymode"): (1, "not-derived", "mode bits of the write destination"),
+    ("external_data.py", "_write_external_data", "os.replace"): (1, "not-derived", "staged file -> write destination"),
+    ("external_data.py", "_write_external_data", "os.remove"): (1, "not-derived", "staged file"),
+    ("external_data.py", "_ExternalDataWriter._write_serial", "open"): (1, "not-derived", "opens the write destination 'wb'"),
+    ("external_data.py", "_ExternalDataWriter._write_parallel", "open"): (1, "not-derived", "opens the write destination 'wb'"),
+    ("external_data.py", "_ExternalDataWriter._write_parallel._thread_file", "open"): (1, "not-derived", "opens the write destination 'r+b'"),
+    ("serde.py", "deserialize_tensor", "onnx.external_data_helper.ExternalDataInfo"): (1, "not-derived", "parses TensorProto.external_data key/values; touches no file"),
+    ("_safetensors/__init__.py", "_save_file", "safetensors.serialize_file"): (2, "not-derived", "writes the caller's .safetensors destination"),
+    ("_safetensors/__init__.py", "_save_file", "safetensors.TensorSpec"): (1, "not-derived", "in-memory descriptor"),
+    ("_safetensors/__init__.py", "_save_file", "tempfile.mkdtemp"): (1, "not-derived", "staging directory next to the caller's .safetensors destination"),
+    ("_safetensors/__init__.py", "_save_file", "os.replace"): (1, "not-derived", "staged shard -> the caller's destination"),
+    ("_safetensors/__init__.py", "_save_file", "shutil.rmtree"): (1, "not-derived", "removes the staging directory"),
+    ("_safetensors/__init__.py", "_save_file", "open"): (1, "not-derived", "writes the shard index json next to the destination"),
+    ("_safetensors/__init__.py", "_read_safetensors", "open"): (1, "not-derived", "reads back the header of the file save_safetensors has just written (caller's path, "
+                                                                  "not a location taken from a model)"),
+}
+
+# every function that touches ExternalTensor.path / location / base_dir or calls the loaders: (file, function) -> what it does
+PATH_USERS = {
+    ("_core.py", "ExternalTensor.__init__"): "stores location / base_dir",
+    ("_core.py", "ExternalTensor.base_dir"): "getter; setter = Step.setBase of the model (drops the mapping when the value changes, D184)",
+    ("_core.py", "ExternalTensor.location"): "getter",
+    ("_core.py", "ExternalTensor.path"): "tensorPath = join(base_dir, location)",
+    ("_core.py", "ExternalTensor.__repr__"): "formats them",
+    ("_core.py", "ExternalTensor._check_path_containment"): "checkContainment",
+    ("_core.py", "ExternalTensor._load"): "loadBody",
+    ("_core.py", "ExternalTensor.tofile"): "body tofile",
+    ("_core.py", "ExternalTensor.numpy"): "body numpy (calls _load)",
+    ("_core.py", "ExternalTensor.__array__"): "body array (calls _load)",
+    ("_core.py", "ExternalTensor.tobytes"): "body tobytes (calls _load)",
+    ("_io.py", "load"): "loadBase + set_base_dir on the main graph and on every function body (loadTensors)",
+    ("external_data.py", "set_base_dir"): "assigns base_dir of every tensor _all_tensors reaches (allTensors)",
+    ("external_data.py", "_write_external_data"): "compares tensor.path with the write destination (samefile) to release / invalidate; reads nothing",
+    ("external_data.py", "convert_tensors_from_external"): "entry point serialize_raw per tensor",
+    ("external_data.py", "load_to_model"): "convert_tensors_from_external on the initializers of all graphs",
+    ("external_data.py", "unload_from_model"): "convert_tensors_from_external, then writes",
+    ("_safetensors/__init__.py", "_save_file"): "convert_tensors_from_external (entry point serialize_raw)",
+    ("_safetensors/__init__.py", "_migrate_tensor_shape_dtype"): "copies location / base_dir into a new ExternalTensor (no file access)",
+    ("serde.py", "deserialize_tensor"): "builds the ExternalTensor from the proto's location (base_dir stays '')",
+    ("serde.py", "serialize_tensor_into"): "writes location back into the proto",
+}
+# who may call ExternalTensor._load / _check_path_containment (the modelled bodies)
+LOAD_CALLERS = {"_load": {"ExternalTensor.numpy", "ExternalTensor.__array__", "ExternalTensor.tobytes"},
+                "_check_path_containment": {"ExternalTensor._load", "ExternalTensor.tofile"}}
+ENTRY_OPEN_SITES = {("_core.py", "ExternalTensor._load"), ("_core.py", "ExternalTensor.tofile")}
+
+
+def _dotted(n):
+    import ast
+
+    if isinstance(n, ast.Name):
+        return n.id
+    if isinstance(n, ast.Attribute):
+        b = _dotted(n.value)
+        return (b + "." + n.attr) if b else None
+    return None
+
+
+def scan_tree(pkg: str) -> dict:
+    """AST scan of the onnx_ir package directory `pkg` (tests excluded)."""
+    import ast
+
+    sinks, users, callers, order = [], {}, {}, {}
+    for dp, _dn, fn in os.walk(pkg):
+        for f in sorted(fn):
+            if not f.endswith(".py") or f.endswith("_test.py"):
+                continue
+            path = os.path.join(dp, f)
+            rel = os.path.relpath(path, pkg)
+            with open(path, encoding="utf-8") as fh:
+                tree = ast.parse(fh.read())
+
+            def sink_of(ch):
+                if not isinstance(ch, ast.Call):
+                    return None
+                d = _dotted(ch.func)
+                if d in _SINK_CALLS or (d and d.startswith(_SINK_PREFIX)):
+                    return d
+                if isinstance(ch.func, ast.Attribute) and ch.func.attr in _SINK_METHODS:
+                    return "." + ch.func.attr
+                if d == "getattr" and len(ch.args) >= 2 and isinstance(ch.args[1], ast.Constant) and ch.args[1].value in _SINK_STRINGS:
+                    return "getattr:" + str(ch.args[1].value)
+                return None
+
+            def rec(node, q):
+                for ch in ast.iter_child_nodes(node):
+                    if isinstance(ch, (ast.FunctionDef, ast.AsyncFunctionDef, ast.ClassDef)):
+                        q2 = (q + "." if q else "") + ch.name
+                        if not isinstance(ch, ast.ClassDef) and (rel, q2) in ENTRY_OPEN_SITES:
+                            # statement order at the top level of the body: the unconditional check, then the first open
+                            chk = opn = None
+                            for i, st in enumerate(ch.body):
+                                if chk is None and isinstance(st, ast.Expr) and isinstance(st.value, ast.Call) and _dotted(st.value.func) == "self._check_path_containment":
+                                    chk = i
+                                if opn is None and any(sink_of(x) in ("open", "os.open", "io.open", "mmap.mmap") for x in ast.walk(st)):
+                                    opn = i
+                            order[(rel, q2)] = (chk, opn)
+                        rec(ch, q2)
+                        continue
+                    k = sink_of(ch)
+                    if k:
+                        sinks.append({"file": rel, "fn": q or "<module>", "sink": k, "line": ch.lineno, "text": ast.unparse(ch)[:100],
+                                      "kw": {kw.arg: ast.unparse(kw.value) for kw in ch.keywords if kw.arg}})
+                    if isinstance(ch, ast.Attribute) and ch.attr in _PATH_ATTRS and not (isinstance(ch.value, ast.Name) and ch.value.id in ("os", "sys", "posixpath", "ntpath")):
+                        users.setdefault((rel, q or "<module>"), set()).add(ch.attr)
+                    if isinstance(ch, ast.Call):
+                        nm = ch.func.attr if isinstance(ch.func, ast.Attribute) else ch.func.id if isinstance(ch.func, ast.Name) else None
+                        if nm in _TENSOR_CALLS:
+                            users.setdefault((rel, q or "<module>"), set()).add("call:" + nm)
+                            callers.setdefault(nm, set()).add((rel, q or "<module>"))
+                    rec(ch, q)
+
+            rec(tree, "")
+    return {"sinks": sinks, "users": users, "callers": callers, "order": order}
+
+
+def static_sites(ctx: Ctx) -> None:
+    """Entry-point completeness as a checked tie (see the comment above FILE_SITES)."""
+    import onnx_ir
+
+    pkg = os.path.dirname(os.path.abspath(onnx_ir.__file__))
+    sc = scan_tree(pkg)
+    found: dict = {}
+    for s in sc["sinks"]:
+        found.setdefault((s["file"], s["fn"], s["sink"]), []).append(s)
+    for key, sites in sorted(found.items()):
+        ent = FILE_SITES.get(key)
+        cls = ent[1] if ent else "UNLISTED"
+        ctx.case(["site", *key], nontrivial=True, site_class=cls.split(":")[0])
+        if ent is None:
+            ctx.disagree("file-access site of onnx_ir that is not in the C10 site table (harness/c10.py FILE_SITES): is it a new way to open a "
+                         "path derived from an external tensor's location / base_dir?", {"site": list(key), "lines": [x["line"] for x in sites], "text": sites[0]["text"]},
+                         "no modelled entry point / no recorded reason", sites[0]["text"])
+        elif len(sites) != ent[0]:
+            ctx.disagree("number of file-access call sites in a listed function changed", {"site": list(key), "lines": [x["line"] for x in sites]}, ent[0], len(sites))
+    for key, ent in FILE_SITES.items():
+        if key not in found:
+            if ent[1].startswith(("entry", "check")):
+                ctx.disagree("a modelled open / check site no longer exists in onnx_ir (the model's statement lists describe other code)", {"site": list(key)}, ent[1], None)
+            else:
+                ctx.count("site-table-stale-entry")
+    # the model file is parsed WITHOUT letting onnx read external data itself (that reader has no containment check)
+    for s in found.get(("_io.py", "load", "onnx.load"), []):
+        if s["kw"].get("load_external_data") != "False":
+            ctx.disagree("ir.load no longer passes load_external_data=False to onnx.load: onnx would open external data files itself, unchecked",
+                         {"site": ["_io.py", "load", "onnx.load"], "text": s["text"]}, "load_external_data=False", s["kw"].get("load_external_data"))
+    # in both modelled bodies the unconditional check statement precedes the statement that opens (loadBody / body tofile)
+    for site in sorted(ENTRY_OPEN_SITES):
+        chk, opn = sc["order"].get(site, (None, None))
+        ctx.case(["site-order", *site], nontrivial=True, site_order=("check-first" if chk is not None and opn is not None and chk < opn else "BROKEN"))
+        if chk is None or opn is None or not chk < opn:
+            ctx.disagree("the containment check is not an unconditional top-level statement before the first open of a modelled entry point "
+                         "(model: loadBody = [check, openMap, ..], tofile = [check, openCopy])", {"site": list(site)}, "check statement index < open statement index", [chk, opn])
+    # readers of path / location / base_dir and callers of the loaders
+    for key, attrs in sorted(sc["users"].items()):
+        ctx.case(["path-user", *key], nontrivial=True, path_user=("listed" if key in PATH_USERS else "UNLISTED"))
+        if key not in PATH_USERS:
+            ctx.disagree("a function of onnx_ir reads an external tensor's path / location / base_dir (or calls a loader) and is not in the C10 table "
+                         "(harness/c10.py PATH_USERS)", {"function": list(key), "uses": sorted(attrs)}, None, sorted(attrs))
+    for nm, allowed in LOAD_CALLERS.items():
+        for (rel, q) in sorted(sc["callers"].get(nm, ())):
+            if rel != "_core.py" or q not in allowed:
+                ctx.disagree(f"ExternalTensor.{nm} is called from a function that is not a modelled entry point", {"caller": [rel, q]}, sorted(allowed), q)
+    ctx.exhaustive_scopes.append(f"static scan: all {len(sc['sinks'])} file-access call sites and all {len(sc['users'])} functions using path/location/base_dir "
+                                 f"of the imported onnx_ir tree ({pkg.replace(os.sep + 'src' + os.sep + 'onnx_ir', '/src/onnx_ir')}), tests excluded")
+
+
 # --------------------------------------------------------------------------- run
 
 
@@ -956,6 +1264,7 @@ def run(ctx: Ctx) -> None:
             "model of the kernel's path resolution and of CPython posixpath (join/normpath/abspath/dirname/realpath): "
             "validated differentially on every run, not verified against the kernel or CPython sources")
     _remove_stale_trees()
+    static_sites(ctx)
     string_functions(ctx)
     tree = build_tree()
     old = os.getcwd()
@@ -1011,6 +1320,7 @@ def run(ctx: Ctx) -> None:
         odd_cases(ctx, tree, desc)
         size_zero_cases(ctx, tree, desc)
         stateful_sequences(ctx)
+        world_sequences(ctx)
         random_trees(ctx)
     finally:
         os.chdir(old)
@@ -1018,22 +1328,25 @@ def run(ctx: Ctx) -> None:
 
 
 def odd_cases(ctx: Ctx, tree: dict, desc: dict) -> None:
-    """Unusual strings and os.PathLike arguments: NUL, very long names, unicode, backslashes,
-    pathlib objects, base_dir assigned after construction.  Oracle on all; model compared unless the
-    string contains NUL (outside the model's alphabet)."""
+    """Unusual strings and base_dir / location objects: NUL (in the location and in the base directory), very long names and
+    paths (NAME_MAX / PATH_MAX), unicode, backslashes, deep symlink chains (ELOOP), pathlib objects, a bytes base directory,
+    base_dir assigned after construction.  Oracle on all; all are compared with the model (path.readsT)."""
     import pathlib
 
     R = tree["R"]
     b = R + "/base"
-    locs = ["f\0", "\0", "../outside/canary\0", "f\0/../../outside/canary", "link_out\0", "x" * 300, "d/" + "y" * 5000,
+    locs = ["f\0", "\0", "../outside/canary\0", "f\0/../../outside/canary", "link_out\0", "d/\0/../f", "x" * 300, "d/" + "y" * 5000,
+            "d/../" * 900 + "f", "./" * 1000 + "f", "d/../" * 900 + "link_out", "f" + "/" * 4200, "mid", "deep", "deep_3", "deep_13", "deepout",
+            "d/../deep", "dlink_in/../mid", "d/up/deepout",
             "é/f", "ｆ", "f ", " f", "f\n", "..\\outside\\canary", "~/canary", "$HOME/x", "%2e%2e/outside/canary",
             "..%2foutside%2fcanary", "....//outside/canary", ".../outside/canary", "..../f", ". /f", ".. /outside/canary",
             "d/..\\..\\outside/canary", "\\..\\outside", "f/", "f/.", "f/..", "f/../f", "link_in/", "link_in/.",
             "link_out/", "dlink_out", "dlink_out/", "dlink_out/.", "dlink_out/..", "dlink_out/../base/f", "dlink_in/../f",
             "dlink_in/../../outside/canary", "d/up/../outside/canary", "d/up/../base/f", "back", "../outside/back/f",
             "hard/", "dangling/..", "dangling_out/../f", "loop_a/../f", "loop_a/f", "chain_in", "link_abs_in",
-            "link_abs_out", "link_sib", "d/e/../../f", "d/e/../../../outside/f", "//", "/", "///" + R.lstrip("/") + "/base/f",
+            "link_abs_out", "link_sib", "d/e/../../f", "d/e/../../../outside/f", "//", "/", "", ".", "./", "d/", "d/.", "///" + R.lstrip("/") + "/base/f",
             "//" + R.lstrip("/") + "/base/f", "//" + R.lstrip("/") + "/outside/canary"]
+    variants = ["str", "pathlike-loc", "pathlike-base", "base-assigned-later", "bytes-base", "nul-in-base", "pathlike-base-assigned-later"]
     old = os.getcwd()
     try:
         os.chdir(R)
@@ -1043,35 +1356,44 @@ def odd_cases(ctx: Ctx, tree: dict, desc: dict) -> None:
             for loc in locs:
                 k += 1
                 ep = ENTRY_POINTS[k % len(ENTRY_POINTS)]
-                variant = k % 4
-                case = {"cwd": R, "base": base, "loc": loc, "ep": ep, "offset": 0, "length": NBYTES, "via": ["str", "pathlike-loc", "pathlike-base", "base-assigned-later"][variant]}
-                bobj, lobj = base, loc
-                if variant == 1 and "\0" not in loc and str(pathlib.PurePosixPath(loc)) == loc:
+                variant = variants[k % len(variants)]
+                kind = "str"
+                bobj, lobj, mbase = base, loc, base
+                if variant == "pathlike-loc" and "\0" not in loc and str(pathlib.PurePosixPath(loc)) == loc:
                     lobj = pathlib.PurePosixPath(loc)
-                if variant == 2 and str(pathlib.PurePosixPath(base)) == base:
+                if variant in ("pathlike-base", "pathlike-base-assigned-later"):
                     bobj = pathlib.PurePosixPath(base)
+                    mbase, kind = os.fspath(bobj), "pathlike"  # pathlib normalises the spelling; the model gets os.fspath(value)
+                if variant == "bytes-base":
+                    bobj, kind = os.fsencode(base), "bytes"
+                if variant == "nul-in-base":
+                    bobj = mbase = base + "/d\0/.."
+                case = {"cwd": R, "base": mbase, "loc": loc, "ep": ep, "offset": 0, "length": NBYTES, "via": variant, "base_type": kind}
                 try:
-                    if variant == 3:
+                    if variant.endswith("assigned-later"):
                         t = make_tensor("", lobj)
                         t.base_dir = bobj
                     else:
                         t = make_tensor(bobj, lobj)
-                except Exception as e:  # noqa: BLE001  constructing never reads
+                except Exception:  # noqa: BLE001  constructing never reads
                     ctx.count("odd-construct-raised")
                     continue
                 obs = real_read(t, ep, tree["scratch"], R)
                 oracle(ctx, tree, desc, case, obs, b)
-                ctx.case(["odd", base.replace(R, "$R"), loc.replace(R, "$R"), ep, variant], odd=case["via"],
+                shape = ("nul" if "\0" in loc or "\0" in mbase else "path>=PATH_MAX" if len(os.path.join(mbase, loc)) >= 4096 else
+                         "name>NAME_MAX" if any(len(c) > 255 for c in loc.split("/")) else "deep-chain" if "deep" in loc or loc.endswith("mid") else "other")
+                ctx.case(["odd", base.replace(R, "$R"), loc.replace(R, "$R"), ep, variant], odd=variant, odd_shape=shape,
                          outcome=(obs["r"] if obs["r"] == "ok" else "raised-" + obs.get("layer", "?")))
-                if "\0" not in loc:
-                    queries.append([base, loc, 0, NBYTES, ep])
-                    obs_l.append((case, obs))
-        mo = lean_batch([{"m": "path.reads", "fs": fs_json(desc), "cwd": R, "kfuel": KFUEL, "fuel": PFUEL, "queries": queries}])[0]
+                if obs["r"] == "ok" and ("\0" in loc or "\0" in mbase or kind == "bytes"):
+                    ctx.fail(f"odd-accepted:{variant}", "a read with a NUL character in the path / a bytes base directory returned bytes", {**case, "obs": obs})
+                queries.append([kind, mbase, loc, 0, NBYTES, False, ep])
+                obs_l.append((case, obs))
+        mo = lean_batch([{"m": "path.readsT", "fs": fs_json(desc), "cwd": R, "kfuel": KFUEL, "fuel": PFUEL, "queries": queries}])[0]
         if "r" not in mo:
             ctx.disagree("model error", {"odd": True}, mo, None)
         else:
             for (case, obs), o in zip(obs_l, mo["r"]):
-                compare(ctx, case, obs, o, desc["inodes"], R)
+                compare(ctx, case, obs, o, desc["inodes"] if case["base_type"] != "bytes" and "\0" not in case["base"] + case["loc"] else {}, R)
     finally:
         os.chdir(old)
 
@@ -1339,32 +1661,405 @@ def stateful_sequences(ctx: Ctx) -> None:
         ctx.merge(p)
 
 
+# --------------------------------------------------------------------------- several tensors, public re-basing operations
+
+# the external tensors of the world model: (position, location, offset, length as given, zero-size)
+WORLD_TENSORS = [("main-init", "w", 0, NBYTES, False), ("main-init-zero", "w", 0, 0, True), ("sub-init", "f", 0, NBYTES, False),
+                 ("main-attr", "s/w", 0, NBYTES, False), ("func-attr", "w", 2, 4, False), ("sub-attr-link", "wlink", 0, NBYTES, False)]
+WORLD_FS_MUTS = ["symlink_out", "replace_in", "rewrite_in_place", "dir_swap", "hardlink_out"]
+
+
+def build_world_model():
+    """A model holding WORLD_TENSORS: initializers of the main graph and of an If branch, TENSOR attributes of a main-graph
+    node, of a node inside the If branch and of a node inside a model-local function.  Returns (model, tensors by index)."""
+    import onnx_ir as ir
+
+    ts = []
+    for pos, loc, off, ln, zero in WORLD_TENSORS:
+        ts.append(ir.ExternalTensor(loc, off, ln, ir.DataType.UINT8, shape=ir.Shape([0 if zero else ln]), name=pos))
+
+    def init(t):
+        return ir.Value(name=t.name, const_value=t, shape=ir.Shape(list(t.shape)), type=ir.TensorType(ir.DataType.UINT8))
+
+    then_g = ir.Graph([], [], nodes=[ir.Node("", "Constant", [], [ir.AttrTensor("value", ts[5])], num_outputs=1, name="sc")], initializers=[init(ts[2])], name="then")
+    nodes = [ir.Node("", "Constant", [], [ir.AttrTensor("value", ts[3])], num_outputs=1, name="c"),
+             ir.Node("", "If", [], [ir.AttrGraph("then_branch", then_g)], num_outputs=1, name="if")]
+    g = ir.Graph([], [], nodes=nodes, initializers=[init(ts[0]), init(ts[1])], name="main", opset_imports={"": 20, "test": 1})
+    fg = ir.Graph([], [], nodes=[ir.Node("", "Constant", [], [ir.AttrTensor("value", ts[4])], num_outputs=1, name="fc")], name="F", opset_imports={"": 20})
+    f = ir.Function("test", "F", graph=fg, attributes=[])
+    return ir.Model(g, ir_version=10, functions=[f]), ts
+
+
+def _world_tensors_of(graph) -> list:
+    """Independent walker: the ExternalTensor objects below one graph (initializers, TENSOR(S) attributes, nested graphs), in no
+    particular order (set_base_dir assigns the same value to each, so the order is irrelevant)."""
+    import onnx_ir as ir
+
+    found, stack = [], [graph]
+    while stack:
+        g = stack.pop()
+        for v in g.initializers.values():
+            if isinstance(v.const_value, ir.ExternalTensor):
+                found.append(v.const_value)
+        for node in g:
+            for a in node.attributes.values():
+                if a.type == ir.AttributeType.TENSOR and isinstance(a.value, ir.ExternalTensor):
+                    found.append(a.value)
+                elif a.type == ir.AttributeType.TENSORS:
+                    found.extend(t for t in a.value if isinstance(t, ir.ExternalTensor))
+                elif a.type == ir.AttributeType.GRAPH:
+                    stack.append(a.value)
+                elif a.type == ir.AttributeType.GRAPHS:
+                    stack.extend(a.value)
+    return found
+
+
+def run_world(part, ops: list, label: str) -> None:
+    """One history of public operations on the tensors of one model; the real objects vs the model's world (path.world),
+    with an independent oracle after every call.  ops:
+      ("call", t, ep) | ("base", t, kind, spelling) | ("basedir", "main"|"func", kind, spelling) | ("release", t)
+      | ("load",) load_to_model | ("convert", [t..]) convert_tensors_from_external | ("clone",) | ("fs", mutation)"""
+    import pathlib
+
+    import onnx_ir as ir
+
+    tree = build_state_tree()
+    R = tree["R"]
+    old = os.getcwd()
+    try:
+        os.chdir(R)
+        model, ts = build_world_model()
+        n = len(ts)
+        idmap, known = {}, {}
+
+        def snapshot():
+            d = describe_tree(R, idmap)
+            for info in d["inodes"].values():
+                known[info["id"]] = info["data"]
+            ghosts = [[i, 0, c] for i, c in known.items() if i not in {x["id"] for x in d["inodes"].values()}]
+            return d, {"entries": d["entries"], "inodes": [[x["id"], x["nlink"], x["data"]] for x in d["inodes"].values()] + ghosts}
+
+        def base_value(kind, sp):
+            sp = sp.replace("$R", R)
+            if kind == "pathlike":
+                v = pathlib.PurePosixPath(sp)
+                return v, os.fspath(v)
+            if kind == "bytes":
+                return os.fsencode(sp), sp
+            return sp, sp
+
+        def true_of(sp):
+            try:
+                return os.path.realpath(os.path.join(R, sp)) if sp != "" and os.path.isdir(os.path.join(R, sp)) else None
+            except (OSError, ValueError):
+                return None
+
+        desc, fsj = snapshot()
+        mops = [{"op": "fs", "fs": fsj}]
+        cur = [("str", "")] * n          # (kind, fspath) of every tensor's base_dir as the harness expects it
+        mapped = [None] * n              # oracle bookkeeping: inode legitimately mapped under the current base value
+        in_model = {0, 1, 2}             # initializer tensors still external in the model (load_to_model replaces them)
+        expect = []                      # per model log entry: (case, obs) or ("agg", ...)
+        active = model
+
+        def check_bases(step):
+            for i, t in enumerate(ts):
+                bd = t.base_dir
+                got = ("bytes" if isinstance(bd, bytes) else "str" if isinstance(bd, str) else "pathlike", os.fsdecode(bd) if isinstance(bd, bytes) else os.fspath(bd))
+                if got != cur[i]:
+                    part.disagree("base_dir of a tensor after a re-basing operation differs from the model's", {"sequence": label, "step": step, "tensor": i}, list(cur[i]), list(got))
+
+        def oracle_call(i, ep, obs, case):
+            kind, sp = cur[i]
+            inos = desc["inodes"]
+            tb_ = true_of(sp) if kind != "bytes" else None
+            tb = (tb_.rstrip("/") + "/") if tb_ else None
+            unchecked = kind != "bytes" and sp == ""
+
+            def inside(key):
+                info = inos.get(key)
+                return unchecked or (tb is not None and info is not None and info.get("kind") != "o" and info["nlink"] == 1 and all((l + "/").startswith(tb) for l in info["locs"]))
+
+            opened_keys = []
+            for p_ in obs["opened"]:
+                key = true_location(p_, R)
+                if key is not None and key in inos:
+                    opened_keys.append(key)
+                    if not inside(key):
+                        part.fail(f"world-outside-open:{ep}", "a call opened a file outside the tensor's base directory / with several links", {**case, "obs": obs})
+            _pos, _loc, off, ln, zero = WORLD_TENSORS[i]
+            if obs["r"] == "ok" and not unchecked:
+                if obs["bytes"] == "":
+                    good = zero or ln == 0
+                elif opened_keys:
+                    good = any(inside(k_) and inos[k_]["data"][off:off + ln] == obs["bytes"] for k_ in opened_keys)
+                else:
+                    good = mapped[i] is not None and known.get(mapped[i], "")[off:off + ln] == obs["bytes"]
+                if not good:
+                    kind_ = "canary-read" if any(obs["bytes"] == c[off:off + ln] for c in tree["canaries"]) else "not-inside-file"
+                    part.fail(f"world-{kind_}:{ep}", "a call returned bytes that are not those of a singly-linked regular file inside the tensor's CURRENT base "
+                              "directory (opened by this call, or mapped by an earlier checked call under the same base directory value)", {**case, "obs": obs})
+            if ep in MAPPING_EPS and opened_keys and obs["r"] == "ok" and not unchecked:
+                mapped[i] = inos[opened_keys[-1]]["id"]
+            if ep == "serialize_raw" and obs["r"] == "ok":
+                mapped[i] = None
+
+        for step, op in enumerate(ops):
+            kind = op[0]
+            if kind == "fs":
+                loc = "s/w" if op[1] == "dir_swap" else "w"
+                try:
+                    MUTATIONS[op[1]](R, None, loc)
+                except OSError:
+                    continue  # the mutation does not apply to the current tree
+                desc, fsj = snapshot()
+                mops.append({"op": "fs", "fs": fsj})
+            elif kind == "base":
+                _, i, k, sp = op
+                v, fsp = base_value(k, sp)
+                ts[i].base_dir = v
+                if (k, fsp) != cur[i]:
+                    mapped[i] = None
+                cur[i] = (k, fsp)
+                mops.append({"op": "base", "t": i, "kind": k, "base": fsp})
+                check_bases(step)
+            elif kind == "basedir":
+                _, which, k, sp = op
+                v, fsp = base_value(k, sp)
+                graph = active.graph if which == "main" else list(active.functions.values())[0].graph
+                reached = [ts.index(t) for t in _world_tensors_of(graph)]
+                ir.external_data.set_base_dir(graph, v)
+                for i in reached:
+                    if (k, fsp) != cur[i]:
+                        mapped[i] = None
+                    cur[i] = (k, fsp)
+                mops.append({"op": "basedir", "ts": sorted(reached), "kind": k, "base": fsp})
+                check_bases(step)
+            elif kind == "release":
+                ts[op[1]].release()
+                mapped[op[1]] = None
+                mops.append({"op": "release", "t": op[1]})
+            elif kind == "clone":
+                clone = active.clone()
+                shared = {id(t) for g_ in [clone.graph] + [f.graph for f in clone.functions.values()] for t in _world_tensors_of(g_)}
+                want = {id(ts[i]) for i in range(n) if i in in_model or i in (3, 4, 5)}
+                if shared != want:
+                    part.disagree("Model.clone() does not share the ExternalTensor objects of the model (the world model treats a clone as an alias)",
+                                  {"sequence": label, "step": step}, len(want), len(shared))
+                active = clone
+                part.count("world_op=clone")
+            elif kind == "call":
+                _, i, ep = op
+                case = {"cwd": R, "base": cur[i][1], "base_type": cur[i][0], "loc": WORLD_TENSORS[i][1], "ep": ep, "via": "world", "sequence": label,
+                        "ops": ops, "tensor": i}
+                obs = real_read(ts[i], ep, tree["scratch"], R, release=False)
+                oracle_call(i, ep, obs, case)
+                mops.append({"op": "call", "t": i, "ep": ep})
+                expect.append(("call", i, case, obs))
+                part.case(["world", label, step], nontrivial=True, sample={"sequence": label}, world_ep=ep, world_tensor=WORLD_TENSORS[i][0], world_base=cur[i][0],
+                          world_outcome=(obs["r"] if obs["r"] == "ok" else "raised-" + obs.get("layer", "?")) + ("" if obs["opened"] else "-noopen"))
+            elif kind in ("load", "convert"):
+                if kind == "load":
+                    order = [0, 1, 2]  # model.graphs(): main-graph initializers in insertion order, then the If branch
+                    idx = [i for i in order if i in in_model]
+                else:
+                    idx = list(op[1])
+                _ensure_hook()
+                _AUDIT["events"], _AUDIT["sites"], _AUDIT["on"] = [], [], True
+                try:
+                    try:
+                        if kind == "load":
+                            ir.external_data.load_to_model(active)
+                            res = [active.graph.initializers[ts[i].name].const_value if i != 2 else
+                                   [a for nd in active.graph for a in nd.attributes.values() if a.type == ir.AttributeType.GRAPH][0].value.initializers[ts[2].name].const_value
+                                   for i in idx]
+                        else:
+                            res = ir.external_data.convert_tensors_from_external([ts[i] for i in idx])
+                        got = {"r": "ok", "bytes": [bytes(ir.serde.serialize_tensor(m_).raw_data).decode("latin1") for m_ in res]}
+                    except Exception as e:  # noqa: BLE001
+                        got = {"r": "raised", "layer": _classify(e), "exc": type(e).__name__}
+                finally:
+                    _AUDIT["on"] = False
+                opened = [p_ if os.path.isabs(p_) else os.path.join(R, p_) for p_ in _AUDIT["events"] if not (p_ if os.path.isabs(p_) else os.path.join(R, p_)).startswith(tree["scratch"])]
+                got["opened"] = opened
+                case = {"cwd": R, "via": "world-" + kind, "sequence": label, "ops": ops, "tensors": idx}
+                # oracle: every file opened belongs to one of the listed tensors and lies inside THAT tensor's base directory
+                for p_ in opened:
+                    key = true_location(p_, R)
+                    info = desc["inodes"].get(key)
+                    if info is None:
+                        continue
+                    owners = [i for i in idx if cur[i][0] != "bytes" and os.path.join(R, cur[i][1], WORLD_TENSORS[i][1]) == p_ or
+                              (cur[i][0] != "bytes" and os.path.join(cur[i][1], WORLD_TENSORS[i][1]) == os.path.relpath(p_, R))]
+                    ok_ = False
+                    for i in owners:
+                        tb_ = true_of(cur[i][1])
+                        if cur[i][1] == "" or (tb_ and info.get("kind") != "o" and info["nlink"] == 1 and all((l + "/").startswith(tb_.rstrip("/") + "/") for l in info["locs"])):
+                            ok_ = True
+                    if not ok_:
+                        part.fail(f"world-outside-open:{kind}", "load_to_model / convert_tensors_from_external opened a file outside the base directory of the tensor it belongs to", {**case, "obs": got})
+                if got["r"] == "ok":
+                    for i in idx:
+                        mapped[i] = None
+                    if kind == "load":
+                        in_model -= set(idx)
+                mops.append({"op": "load", "ts": idx})
+                expect.append(("agg", idx, case, got))
+                part.case(["world", label, step], nontrivial=bool(idx), world_ep=kind, world_outcome=got["r"] + f"-{len(idx)}")
+        out = lean_batch([{"m": "path.world", "cwd": R, "kfuel": KFUEL, "fuel": PFUEL,
+                           "tensors": [[loc, off, ln, zero] for _p, loc, off, ln, zero in WORLD_TENSORS], "ops": mops}])[0]
+        if "r" not in out:
+            part.disagree("model error (world)", {"sequence": label}, out, None)
+            return
+        log = list(out["r"])
+        pos = 0
+        for ex in expect:
+            if ex[0] == "call":
+                _, i, case, obs = ex
+                if pos >= len(log) or log[pos].get("t") != i:
+                    part.disagree("model log out of step with the calls made (world)", {"sequence": label, "ops": ops}, log[pos:pos + 1], i)
+                    return
+                compare(part, case, obs, log[pos], {}, R)
+                pos += 1
+            else:
+                _, idx, case, got = ex
+                entries = []
+                for i in idx:
+                    if pos >= len(log) or log[pos].get("t") != i:
+                        part.disagree("model log out of step with a load (world)", {"sequence": label, "ops": ops}, log[pos:pos + 1], i)
+                        return
+                    entries.append(log[pos])
+                    pos += 1
+                    if entries[-1]["r"] == "raised":
+                        break
+                m_r = "raised" if entries and entries[-1]["r"] == "raised" else "ok"
+                if m_r != got["r"]:
+                    part.disagree("load_to_model / convert_tensors_from_external: raise / return differs from the model", case, entries, got)
+                elif got["r"] == "ok" and [e_.get("bytes") for e_ in entries] != got["bytes"]:
+                    part.disagree("load_to_model / convert_tensors_from_external: bytes differ from the model", case, entries, got)
+                else:
+                    m_opens = sum(1 for e_ in entries if e_["opened"] is not None)
+                    if m_opens != len(got["opened"]):
+                        part.disagree("load_to_model / convert_tensors_from_external: number of files opened differs from the model", case, entries, got)
+        if pos != len(log):
+            part.disagree("model log longer than the calls made (world)", {"sequence": label, "ops": ops}, len(log), pos)
+        for t in ts:
+            try:
+                t.release()
+            except Exception:  # noqa: BLE001
+                pass
+    finally:
+        os.chdir(old)
+        shutil.rmtree(tree["top"], ignore_errors=True)
+
+
+def _world_work(job: list) -> dict:
+    part = Part()
+    for ops, label in job:
+        run_world(part, ops, label)
+    return part
+
+
+WORLD_BASES = [("str", "$R/base"), ("pathlike", "$R/base"), ("str", "base"), ("pathlike", "base/"), ("str", "$R/base/"), ("bytes", "$R/base"),
+               ("str", "$R/other"), ("str", "$R/outside"), ("str", ""), ("str", "$R/base/d"), ("pathlike", "$R/other"), ("str", "$R/base/s/..")]
+
+
+def world_sequences(ctx: Ctx) -> None:
+    """Histories of the public re-basing operations over the tensors of one model (theorem C10_world_safe)."""
+    scen = []
+    # every way of giving the model a base directory x every entry point on every tensor, then re-base another way and read again
+    k = 0
+    for setter in ("base", "basedir"):
+        for b1 in WORLD_BASES[:7]:
+            for b2 in (WORLD_BASES[0], WORLD_BASES[1], WORLD_BASES[6], WORLD_BASES[8]):
+                k += 1
+                ops = []
+                if setter == "base":
+                    ops += [("base", i, *b1) for i in range(len(WORLD_TENSORS))]
+                else:
+                    ops += [("basedir", "main", *b1), ("basedir", "func", *b1)]
+                ops += [("call", i, ENTRY_POINTS[(i + k) % len(ENTRY_POINTS)]) for i in range(len(WORLD_TENSORS))]
+                ops += [("clone",)] if k % 2 else []
+                ops += [("fs", WORLD_FS_MUTS[k % len(WORLD_FS_MUTS)])] if k % 3 == 0 else []
+                ops += [("basedir", "main", *b2)] if k % 2 else [("base", i, *b2) for i in (0, 3, 4)]
+                ops += [("call", i, ENTRY_POINTS[(i + 2 * k) % len(ENTRY_POINTS)]) for i in range(len(WORLD_TENSORS))]
+                ops += [("load",), ("call", 0, "tobytes"), ("convert", [3, 4])]
+                scen.append((ops, f"{setter}:{b1[0]}:{b1[1]}>{b2[0]}:{b2[1]}#{k}"))
+    ctx.exhaustive_scopes.append(f"world: both setters x {7} first base values x 4 second base values, all tensors read before and after ({len(scen)} histories)")
+    for _ in range(ctx.pick(120, 1500)):
+        ops = [("basedir", "main", *ctx.rng.choice(WORLD_BASES[:5])), ("basedir", "func", *ctx.rng.choice(WORLD_BASES[:5]))] if ctx.rng.random() < 0.8 else []
+        for _ in range(ctx.rng.randrange(4, 14)):
+            r = ctx.rng.random()
+            i = ctx.rng.randrange(len(WORLD_TENSORS))
+            if r < 0.45:
+                ops.append(("call", i, ctx.rng.choice(ENTRY_POINTS)))
+            elif r < 0.6:
+                ops.append(("base", i, *ctx.rng.choice(WORLD_BASES)))
+            elif r < 0.72:
+                ops.append(("basedir", ctx.rng.choice(["main", "func"]), *ctx.rng.choice(WORLD_BASES)))
+            elif r < 0.78:
+                ops.append(("release", i))
+            elif r < 0.84:
+                ops.append(("load",))
+            elif r < 0.9:
+                ops.append(("convert", sorted(ctx.rng.sample(range(len(WORLD_TENSORS)), ctx.rng.randrange(1, 4)))))
+            elif r < 0.94:
+                ops.append(("clone",))
+            else:
+                ops.append(("fs", ctx.rng.choice(WORLD_FS_MUTS)))
+        scen.append((ops, "random:" + ">".join(str(o[0]) for o in ops)))
+    k_ = max(1, (len(scen) + 31) // 32)
+    for p in pmap(_world_work, [scen[i:i + k_] for i in range(0, len(scen), k_)]):
+        ctx.merge(p)
+
+
 def size_zero_cases(ctx: Ctx, tree: dict, desc: dict) -> None:
-    """Zero-size tensors (nothing is mapped or copied) and tensors without offset/length: oracle only.  A zero-size
-    read must not open any file outside the base directory and returns no byte."""
+    """Zero-size tensors (model: bodyZ / callT, theorem C10_zero_size): numpy / __array__ / serialisation run the check and open
+    nothing, tobytes touches nothing, tofile checks, opens and copies `length` bytes (which may be non-zero).  Compared with the
+    model; oracle: no byte unless tofile copies from a singly-linked regular file inside the base; no open outside the base."""
+    import pathlib
+
     import onnx_ir as ir
 
     R = tree["R"]
     b = R + "/base"
+    inside = lambda info: info.get("kind") != "o" and info["nlink"] == 1 and all((l + "/").startswith(b + "/") for l in info["locs"])  # noqa: E731
     old = os.getcwd()
     try:
         os.chdir(R)
         k = 0
-        for loc in ["f", "link_out", "../outside/canary", R + "/outside/canary", "hard", "dlink_out/f", "fifo", "nothing", "d"]:
+        queries, obs_l = [], []
+        for loc in ["f", "link_out", "../outside/canary", R + "/outside/canary", "hard", "dlink_out/f", "fifo", "nothing", "d", "", "link_in", "deep",
+                    "deepout", "f\0", "d/hard_in", "../basex/f"]:
             for ep in ENTRY_POINTS:
-                for off, ln in ((0, 0), (None, None), (None, 0)):
+                for off, ln in ((0, 0), (None, None), (None, 0), (0, NBYTES), (9, 0), (2, 4), (4, NBYTES)):
                     k += 1
-                    t = ir.ExternalTensor(loc, off, ln, ir.DataType.UINT8, shape=ir.Shape([0]), name="z", base_dir=b)
-                    case = {"cwd": R, "base": b, "loc": loc, "ep": ep, "offset": off, "length": ln, "via": "size-zero"}
+                    kind, bobj = [("str", b), ("pathlike", pathlib.PurePosixPath(b)), ("str", "base"), ("bytes", os.fsencode(b)), ("str", b + "/")][k % 5]
+                    mbase = os.fspath(bobj) if kind != "bytes" else b
+                    t = ir.ExternalTensor(loc, off, ln, ir.DataType.UINT8, shape=ir.Shape([0]), name="z", base_dir=bobj)
+                    case = {"cwd": R, "base": mbase, "loc": loc, "ep": ep, "offset": off, "length": ln, "via": "size-zero", "base_type": kind}
                     obs = real_read(t, ep, tree["scratch"], R)
-                    ctx.case(["size-zero", loc.replace(R, "$R"), ep, off, ln], size_zero=(obs["r"] if obs["r"] == "ok" else "raised-" + obs.get("layer", "?")))
+                    ctx.case(["size-zero", loc.replace(R, "$R"), ep, off, ln, kind], size_zero=(obs["r"] if obs["r"] == "ok" else "raised-" + obs.get("layer", "?")),
+                             size_zero_ep=ep, size_zero_bytes=("some" if obs.get("bytes") else "none"))
                     if obs["r"] == "ok" and obs["bytes"] != "":
-                        ctx.fail(f"size-zero-bytes:{ep}", "a zero-size tensor returned bytes", {**case, "obs": obs})
+                        src = [info for info in desc["inodes"].values() if inside(info) and info["data"][(off or 0):(off or 0) + (ln or 0)] == obs["bytes"]]
+                        if not ep.startswith("tofile") or not src:
+                            ctx.fail(f"size-zero-bytes:{ep}", "a zero-size tensor returned bytes that are not a tofile() copy from a singly-linked regular file inside the base", {**case, "obs": obs})
                     for p_ in obs["opened"]:
                         key = true_location(p_, R)
                         info = desc["inodes"].get(key)
-                        if info is not None and not (info.get("kind") != "o" and info["nlink"] == 1 and all((l + "/").startswith(b + "/") for l in info["locs"])):
+                        if info is not None and not inside(info):
                             ctx.fail(f"size-zero-outside-open:{ep}", "a zero-size read opened a file outside the base directory", {**case, "obs": obs})
+                        if not ep.startswith("tofile"):
+                            ctx.disagree("a zero-size read through an entry point other than tofile opened a file (model: bodyZ opens nothing)", case, None, obs)
+                    queries.append([kind, mbase, loc, off or 0, ln or 0, True, ep])
+                    obs_l.append((case, obs))
+        mo = lean_batch([{"m": "path.readsT", "fs": fs_json(desc), "cwd": R, "kfuel": KFUEL, "fuel": PFUEL, "queries": queries}])[0]
+        if "r" not in mo:
+            ctx.disagree("model error", {"size-zero": True}, mo, None)
+        else:
+            for (case, obs), o in zip(obs_l, mo["r"]):
+                compare(ctx, case, obs, o, desc["inodes"] if case["base_type"] != "bytes" and "\0" not in case["loc"] else {}, R)
     finally:
         os.chdir(old)
 
